@@ -41,7 +41,8 @@ RULE = ("case = (arm, random symbolic diagram with <=3 wires and <=6 boxes "
         "over 1-3 symbols, 4-6 substitution styles, 1-2 lambdify calls); "
         "non-trivial = the diagram has >=1 box with a symbol and at least one "
         "substitution reached the semantic comparison; distinct by the repr "
-        "of the diagram and of the substitutions.")
+        "of the diagram and of the substitutions."
+        "  Also: the same diagram lambdified again in another symbol order; bubble facet on tensor diagrams; radicands of either sign.")
 SIZES = {"quick": (16, 26), "thorough": (16, 300)}
 TIMEOUT = {"quick": 900, "thorough": 5400}
 COVER = {
